@@ -3,6 +3,7 @@ CONSTANTS Params = {1, 2, 3}
  Dim <- DimOf
  Canon <- CanonOf
  HasFitTransform = TRUE
+ HasCrossVal = TRUE
  Thresholds = {1}
  ValSets = {1}
  Strategies = {"accuracy"}
